@@ -239,7 +239,9 @@ func checkAnchor(p anchorPt, wantIdx string, bottom bool) (bool, string) {
 	return true, ""
 }
 
-var affRouters = []string{"execStraightRouting", "execPolylineRouting", "execOrthoRouting"}
+func affRouterNames(m *Model) []string {
+	return []string{dispatchCallee(m, "internal/phase5", "Straight", "execStraightRouting"), dispatchCallee(m, "internal/phase5", "Polyline", "execPolylineRouting"), dispatchCallee(m, "internal/phase5", "Ortho", "execOrthoRouting")}
+}
 
 func routerLoop(res *affResult) *affLoop {
 	for _, l := range res.loops {
@@ -251,13 +253,17 @@ func routerLoop(res *affResult) *affLoop {
 }
 
 func runAff1(m *Model, r *RuleResult) {
-	routers := affRouters
+	routers := affRouterNames(m)
 	if m.TypesFunc("internal/phase5", "", "zzVerifPosctlAff1") != nil {
 		routers = append(append([]string{}, routers...), "zzVerifPosctlAff1")
 	}
-	for _, name := range routers {
+	roles := []string{"Straight", "Polyline", "Ortho"}
+	for i, name := range routers {
 		res := affRun(m, "internal/phase5", "", name)
 		key := "anchors:internal/phase5." + name
+		if i < len(roles) {
+			key = "anchors:router:" + roles[i]
+		}
 		if res == nil {
 			r.undecided(key, "-", "router "+name, "function not found")
 			continue
@@ -316,8 +322,8 @@ func runAff1(m *Model, r *RuleResult) {
 		}
 	}
 	// spline router: anchors handed to the path finder / MakeSpline
-	res := affRun(m, "internal/phase5", "", "execSplines")
-	key := "anchors:internal/phase5.execSplines"
+	res := affRun(m, "internal/phase5", "", dispatchCallee(m, "internal/phase5", "Splines", "execSplines"))
+	key := "anchors:router:Splines"
 	if res == nil {
 		r.undecided(key, "-", "spline router", "function not found")
 		return
@@ -370,7 +376,7 @@ func runAff1(m *Model, r *RuleResult) {
 
 func runAff2(m *Model, r *RuleResult) {
 	// Straight
-	if res := affRun(m, "internal/phase5", "", "execStraightRouting"); res == nil || routerLoop(res) == nil {
+	if res := affRun(m, "internal/phase5", "", dispatchCallee(m, "internal/phase5", "Straight", "execStraightRouting")); res == nil || routerLoop(res) == nil {
 		r.undecided("shape:straight", "-", "execStraightRouting", "not found / no loop")
 	} else {
 		l := routerLoop(res)
@@ -394,7 +400,7 @@ func runAff2(m *Model, r *RuleResult) {
 		}
 	}
 	// Polyline
-	if res := affRun(m, "internal/phase5", "", "execPolylineRouting"); res == nil || routerLoop(res) == nil {
+	if res := affRun(m, "internal/phase5", "", dispatchCallee(m, "internal/phase5", "Polyline", "execPolylineRouting")); res == nil || routerLoop(res) == nil {
 		r.undecided("shape:polyline", "-", "execPolylineRouting", "not found / no loop")
 	} else {
 		l := routerLoop(res)
@@ -472,7 +478,7 @@ func runAff2(m *Model, r *RuleResult) {
 		}
 	}
 	// Splines
-	if res := affRun(m, "internal/phase5", "", "execSplines"); res == nil || routerLoop(res) == nil {
+	if res := affRun(m, "internal/phase5", "", dispatchCallee(m, "internal/phase5", "Splines", "execSplines")); res == nil || routerLoop(res) == nil {
 		r.undecided("shape:splines", "-", "execSplines", "not found / no loop")
 	} else {
 		l := routerLoop(res)
@@ -529,7 +535,7 @@ func runAff2(m *Model, r *RuleResult) {
 }
 
 func runAff3(m *Model, r *RuleResult) {
-	aff3On(m, r, "execOrthoRouting", "ortho")
+	aff3On(m, r, dispatchCallee(m, "internal/phase5", "Ortho", "execOrthoRouting"), "ortho")
 	if m.TypesFunc("internal/phase5", "", "zzVerifPosctlAff3") != nil {
 		aff3On(m, r, "zzVerifPosctlAff3", "zzVerifPosctl-ortho")
 	}
@@ -647,7 +653,7 @@ func storeTo(p *affState, suffix string) (affStore, bool) {
 }
 
 func runAff4(m *Model, r *RuleResult) {
-	aff4On(m, r, "execVerticalAlign", "execPackRight", "")
+	aff4On(m, r, dispatchCallee(m, "internal/phase4", "VerticalAlign", "execVerticalAlign"), dispatchCallee(m, "internal/phase4", "PackRight", "execPackRight"), "")
 	if m.TypesFunc("internal/phase4", "", "zzVerifPosctlAff4") != nil {
 		aff4On(m, r, "zzVerifPosctlAff4", "", "zzVerifPosctl-")
 	}
@@ -907,7 +913,7 @@ func aff4On(m *Model, r *RuleResult, valignName, packName, pre string) {
 }
 
 func runAff5(m *Model, r *RuleResult) {
-	aff5On(m, r, "assignYCoords", "")
+	aff5On(m, r, yAssigner(m), "")
 	if m.TypesFunc("internal/phase4", "", "zzVerifPosctlAff5") != nil {
 		aff5On(m, r, "zzVerifPosctlAff5", "zzVerifPosctl-")
 	}
@@ -995,7 +1001,7 @@ func aff5On(m *Model, r *RuleResult, fname, pre string) {
 }
 
 func runAff7(m *Model, r *RuleResult) {
-	res := affRun(m, "internal/phase4", "", "execNetworkSimplex")
+	res := affRun(m, "internal/phase4", "", dispatchCallee(m, "internal/phase4", "NetworkSimplex", "execNetworkSimplex"))
 	if res == nil {
 		r.undecided("ns-positioner", "-", "phase4.execNetworkSimplex", "not found")
 		return
